@@ -109,11 +109,14 @@ class DetLoop(asyncio.SelectorEventLoop):
         handle = None
 
     # ---- driving
-    def run_until_quiescent(self, coro, max_steps=2_000_000):
+    def run_until_quiescent(self, coro, max_steps=2_000_000, max_seconds=300):
         """Run `coro` as a task until it completes or the loop has nothing left
-        to do (a hang).  Returns (done, task)."""
+        to do (a hang).  Returns (done, task).  Besides the step bound there is a bound in wall-clock time
+        (runs take seconds; one that has become endless is reported as not done instead of holding the check up)."""
+        import time
         task = self.create_task(compat._ensure(coro))
         n = 0
+        t0 = time.monotonic()
         self._thread_id_saved = None
         import asyncio.events as ev
         old = ev._get_running_loop()
@@ -124,6 +127,8 @@ class DetLoop(asyncio.SelectorEventLoop):
                     break
                 self._run_once()
                 n += 1
+                if n % 512 == 0 and time.monotonic() - t0 > max_seconds:
+                    break
         finally:
             ev._set_running_loop(old)
         return task.done(), task
